@@ -79,6 +79,29 @@ Theorem C15_new_ok : forall p, (p < 8192)%N -> stub_events p = ref_mask p /\ new
 Proof. exact stub_events_ref. Qed.
 Print Assumptions C15_new_ok.
 
+(* ------------------------------------------------------------------ several sessions of one stub *)
+
+(* A stub object can be started again after Stop, a lost connection or a failed Start (C16).  For ANY
+   sequence of sessions with ANY hook behaviour per session, every session is answered as if it were the
+   first: the subscription a plugin asked for in one session does not narrow (or otherwise change) what a
+   later session can get.  sessions p hooks runs Configure with the stub's mask threaded through the
+   sessions; whether Configure writes that mask is read from stub.go on every run. *)
+Theorem C15_sessions_independent : forall p hooks, sessions p hooks = map (configure p) hooks.
+Proof. exact sessions_independent. Qed.
+Print Assumptions C15_sessions_independent.
+
+Theorem C15_sessions_hold : forall p hooks,
+  (p < 8192)%N -> Forall2 (fun h r => holds_cfg p h r = true) hooks (sessions p hooks).
+Proof. exact sessions_hold. Qed.
+Print Assumptions C15_sessions_hold.
+
+(* non-vacuity, and the variant that stores the accepted subscription in the stub's mask: plugin type 33
+   (events 1 and 4): session 1 asks for event 1, session 2 asks for "everything" (0), session 3 for event 4 *)
+Example C15_ex_sessions :
+  sessions 33%N [HookMask 1%Z; HookMask 0%Z; HookMask 8%Z] = [COk 1%Z; COk 9%Z; COk 8%Z] /\
+  run_sessions true (stub_events 33%N) [HookMask 1%Z; HookMask 0%Z; HookMask 8%Z] = [COk 1%Z; COk 1%Z; CErrUnhandled].
+Proof. vm_compute. split; reflexivity. Qed.
+
 (* ------------------------------------------------------------------ dispatch *)
 
 (* every handler's event is routed to that handler's field *)
